@@ -432,13 +432,15 @@ class ColumnDefinition:
 
             """
 
-            if column_text.find(" ") != -1:
+            name_match = match(r"\S+", column_text)
 
-                # There is whitespace delimiting the column name
-                column_name = column_text[: column_text.index(" ")]
+            if name_match and name_match.end() != len(column_text):
+
+                # There is whitespace (a space, tab, newline, ...) delimiting the column name
+                column_name = column_text[: name_match.end()]
 
                 # Parse the remaining column text
-                remaining_column_text = column_text[column_text.index(" ") + 1 :]
+                remaining_column_text = column_text[name_match.end() + 1 :]
 
                 # Return the column name and remaining column text stripped of whitespace
                 return column_name, remaining_column_text.strip()
